@@ -300,6 +300,11 @@ def pipeline_calls(v, source_pred, limit=40):
     names = []
     cur = v
     for _ in range(limit):
+        while isinstance(cur, tuple) and cur and cur[0] == 'havoc':
+            # the value was handed out mutably to this callee on the way: part of the pipeline
+            if len(cur) > 3:
+                names.append(cur[3])
+            cur = cur[2]
         cur = strip(cur)
         if source_pred(cur):
             return names
